@@ -162,6 +162,77 @@ pub fn data_patterns(rng: &mut Rng) -> Vec<[u8; 8]> {
 }
 
 // ---------------------------------------------------------------------------------------------- C06
+/// The deep sweeps of one driver kind (shared by C06 — no panic —, C11 — attribution — and C12 — decoding): per-byte
+/// sweeps, extreme 16/32-bit words at aligned and unaligned offsets, and the engine-controller cross product.
+pub fn driver_sweeps(out: &mut Out, kind: &'static str, da: u8, sa: u8, thorough: bool, rng: &mut Rng) {
+    // per-byte sweeps on the frames each driver decodes most deeply
+    let deep: &[u32] = match kind {
+        "hcu" | "vcu" | "sim" => &[65288, 45824, 45312, 65242, 40960, 41216],
+        "encoder" => &[65450],
+        "inclino" => &[65451],
+        "d7e" | "ecm" => &[61444, 0, 65262, 65263, 65271],
+        _ => &[65242, 60928],
+    };
+    for &pgn in deep {
+        let base = [0x14u8, 0x7D, 0x7D, 0x00, 0x20, 0xFF, 0x03, 0xFF];
+        for pos in 0..8 {
+            let vals: Vec<u8> = if thorough || pos == 0 || pos == 6 { (0..=255).collect() } else { vec![0, 1, 2, 0x7F, 0x80, 0xFE, 0xFF, rng.byte()] };
+            for v in vals {
+                let mut d = base;
+                d[pos] = v;
+                let src = if kind == "sim" { 0x4A } else { da };
+                recv_case(out, kind, da, sa, &frame8(make_id(6, pgn, 0xFF, src), d), true);
+            }
+        }
+    }
+    // extreme 16- and 32-bit words in every aligned slot (signed minima / maxima, all ones, zero)
+    for &pgn in deep {
+        let src = if kind == "sim" { 0x4A } else { da };
+        for fill in [0xFFu8, 0x00] {
+            for slot in 0..4usize {
+                for w in [0x8000u16, 0x7FFF, 0x8001, 0xFFFF, 0x0000, 0x0001, 0xFF00, 0x00FF] {
+                    let mut d = [fill; 8];
+                    d[2 * slot..2 * slot + 2].copy_from_slice(&w.to_le_bytes());
+                    for dest in [0xFFu8, da, 0x4A] {
+                        recv_case(out, kind, da, sa, &frame8(make_id(3, pgn, dest, src), d), true);
+                    }
+                }
+            }
+            for slot in 0..2usize {
+                for w in [0x8000_0000u32, 0x7FFF_FFFF, 0xFFFF_FFFF, 0, 1, 0xFFFF_FFFE] {
+                    let mut d = [fill; 8];
+                    d[4 * slot..4 * slot + 4].copy_from_slice(&w.to_le_bytes());
+                    recv_case(out, kind, da, sa, &frame8(make_id(3, pgn, 0xFF, src), d), true);
+                }
+            }
+        }
+    }
+    // extreme words at UNALIGNED offsets too, and for the engine controller frame the cross product of every
+    // starter-mode nibble with "not available" / extreme speeds (fields are decoded together)
+    for &pgn in deep {
+        let src = if kind == "sim" { 0x4A } else { da };
+        for off in [1usize, 3, 5] {
+            for w in [0xFFFFu16, 0xFFFE, 0x8000, 0x7FFF, 0x0000] {
+                for fill in [0xFFu8, 0x00, 0x7D] {
+                    let mut d = [fill; 8];
+                    d[off..off + 2].copy_from_slice(&w.to_le_bytes());
+                    recv_case(out, kind, da, sa, &frame8(make_id(3, pgn, 0xFF, src), d), true);
+                }
+            }
+        }
+        if pgn == 61444 {
+            for nib in 0..16u8 {
+                for hi in [0xF0u8, 0x00] {
+                    for w in [0xFFFFu16, 0xFFFE, 0x0000, 0x0001, 0x8000, 12000] {
+                        let b = w.to_le_bytes();
+                        recv_case(out, kind, da, sa, &frame8(make_id(3, pgn, 0xFF, src), [0xF0, 0x7D, 0x7D, b[0], b[1], 0x00, hi | nib, 0xFF]), true);
+                    }
+                }
+            }
+        }
+    }
+}
+
 pub fn run_c06(out: &mut Out, tier: &str, rng: &mut Rng) {
     let thorough = tier == "thorough";
     out.rule = "driver level: every driver kind x address configs x every parameter group any driver inspects (+ foreign) x source in {unit, daemon, 0xFF, other} x destination classes x data patterns; each data byte swept 0..255 with the other bytes at a status-like pattern; random frames; all through the real try_recv under catch_unwind. Non-trivial = frame from the unit's own address with an inspected parameter group".into();
@@ -180,48 +251,7 @@ pub fn run_c06(out: &mut Out, tier: &str, rng: &mut Rng) {
                     }
                 }
             }
-            // per-byte sweeps on the frames each driver decodes most deeply
-            let deep: &[u32] = match kind {
-                "hcu" | "vcu" | "sim" => &[65288, 45824, 45312, 65242, 40960, 41216],
-                "encoder" => &[65450],
-                "inclino" => &[65451],
-                "d7e" | "ecm" => &[61444, 0, 65262, 65263, 65271],
-                _ => &[65242, 60928],
-            };
-            for &pgn in deep {
-                let base = [0x14u8, 0x7D, 0x7D, 0x00, 0x20, 0xFF, 0x03, 0xFF];
-                for pos in 0..8 {
-                    let vals: Vec<u8> = if thorough || pos == 0 || pos == 6 { (0..=255).collect() } else { vec![0, 1, 2, 0x7F, 0x80, 0xFE, 0xFF, rng.byte()] };
-                    for v in vals {
-                        let mut d = base;
-                        d[pos] = v;
-                        let src = if kind == "sim" { 0x4A } else { da };
-                        recv_case(out, kind, da, sa, &frame8(make_id(6, pgn, 0xFF, src), d), true);
-                    }
-                }
-            }
-            // extreme 16- and 32-bit words in every aligned slot (signed minima / maxima, all ones, zero)
-            for &pgn in deep {
-                let src = if kind == "sim" { 0x4A } else { da };
-                for fill in [0xFFu8, 0x00] {
-                    for slot in 0..4usize {
-                        for w in [0x8000u16, 0x7FFF, 0x8001, 0xFFFF, 0x0000, 0x0001, 0xFF00, 0x00FF] {
-                            let mut d = [fill; 8];
-                            d[2 * slot..2 * slot + 2].copy_from_slice(&w.to_le_bytes());
-                            for dest in [0xFFu8, da, 0x4A] {
-                                recv_case(out, kind, da, sa, &frame8(make_id(3, pgn, dest, src), d), true);
-                            }
-                        }
-                    }
-                    for slot in 0..2usize {
-                        for w in [0x8000_0000u32, 0x7FFF_FFFF, 0xFFFF_FFFF, 0, 1, 0xFFFF_FFFE] {
-                            let mut d = [fill; 8];
-                            d[4 * slot..4 * slot + 4].copy_from_slice(&w.to_le_bytes());
-                            recv_case(out, kind, da, sa, &frame8(make_id(3, pgn, 0xFF, src), d), true);
-                        }
-                    }
-                }
-            }
+            driver_sweeps(out, kind, da, sa, thorough, rng);
             for _ in 0..(if thorough { 20_000 } else { 1_500 }) {
                 let mut d = [0u8; 8];
                 for b in d.iter_mut() {
@@ -277,6 +307,8 @@ pub fn run_c11(out: &mut Out, tier: &str, rng: &mut Rng) {
             }
             recv_case(out, kind, da, sa, &frame8(rng.next() as u32 & 0x1FFF_FFFF, d), false);
         }
+        // the deep sweeps shared with C06 / C12 (every frame of them is attributed too)
+        driver_sweeps(out, kind, da, sa, false, rng);
     }
 }
 
@@ -339,6 +371,10 @@ pub fn run_c12(out: &mut Out, tier: &str, rng: &mut Rng) {
             let b = p.to_le_bytes();
             recv_case(out, "encoder", da, 0x27, &frame8(make_id(6, 65450, 0, da), [b[0], b[1], b[2], b[3], 0, 0, 0, 0]), true);
         }
+    }
+    // the deep sweeps shared with C06 / C11: whatever a frame carries, what is decoded from it is what the model decodes
+    for (kind, da, sa) in [("hcu", 0x4Au8, 0x27u8), ("vcu", 0x12, 0x27), ("d7e", 0x00, 0x27), ("ecm", 0x00, 0x27), ("inclino", 0x7A, 0x27), ("encoder", 0x6A, 0x27), ("encoder", 0x6B, 0x27), ("ecu", 0x3C, 0x27)] {
+        driver_sweeps(out, kind, da, sa, false, rng);
     }
 }
 
